@@ -58,6 +58,8 @@ type SegCase struct {
 	Msgs     []MsgSpec `json:"msgs"`
 	Muts     []Mut     `json:"muts,omitempty"`
 	Multi    int       `json:"multi"` // number of random multi-cut segmentations
+	MaxBody  int       `json:"max_body,omitempty"` // Engine.MaxHTTPBodySize
+	Server   bool      `json:"server,omitempty"`   // requests: through the real ServerProcessor and a handler
 }
 
 func genMuts(r *simrt.Rand, n int) []Mut {
@@ -84,7 +86,31 @@ func genSegCase(r *simrt.Rand, tier string) *SegCase {
 	if r.Bool(0.4) {
 		c.Muts = genMuts(r, r.Pick(1, 1, 2))
 	}
+	if r.Bool(0.4) {
+		c.MaxBody = r.Pick(1, 16, 64, 300, 1000)
+	}
+	c.Server = !c.Response && len(c.Muts) == 0 && r.Bool(0.5)
+	if c.Server {
+		// requests pipelined behind a closing exchange are legitimately dropped, and how many of
+		// them a server has already seen depends on the segmentation: only the last may close
+		for i := range c.Msgs[:len(c.Msgs)-1] {
+			c.Msgs[i].Proto, c.Msgs[i].Conn = "HTTP/1.1", ""
+		}
+	}
 	return c
+}
+
+// serverPath tells whether the case runs through ServerProcessor and a handler.
+func (c *SegCase) serverPath() bool {
+	if !c.Server || c.Response || len(c.Muts) > 0 {
+		return false
+	}
+	for _, m := range c.Msgs[:len(c.Msgs)-1] {
+		if m.Proto != "HTTP/1.1" || m.Conn != "" {
+			return false
+		}
+	}
+	return true
 }
 
 func (c *SegCase) stream() []byte {
@@ -150,6 +176,16 @@ func shrinkSeg(ci interface{}) []interface{} {
 		x.Multi = 0
 		out = append(out, x)
 	}
+	if c.MaxBody != 0 {
+		x := cp()
+		x.MaxBody = 0
+		out = append(out, x)
+	}
+	if c.Server {
+		x := cp()
+		x.Server = false
+		out = append(out, x)
+	}
 	return out
 }
 
@@ -165,7 +201,11 @@ func runSeg(t *testing.T, ci interface{}, trace bool) *common.Outcome {
 	o := &common.Outcome{}
 	e := newEnv(false)
 	defer e.close()
-	eng := newHTTPEngine(e, 0, 0, nil)
+	eng := newHTTPEngine(e, 0, c.MaxBody, nil)
+	run := func(pieces [][]byte) *feedResult { return feed(e, eng, c.Response, pieces) }
+	if c.serverPath() {
+		run = func(pieces [][]byte) *feedResult { return feedServer(e, 0, c.MaxBody, pieces) }
+	}
 	s := c.stream()
 	o.Finger = fnv(s)
 	o.NonTrivial = len(c.Msgs) > 1
@@ -177,9 +217,9 @@ func runSeg(t *testing.T, ci interface{}, trace bool) *common.Outcome {
 	if len(s) == 0 {
 		return o
 	}
-	ref := feed(e, eng, c.Response, [][]byte{s})
+	ref := run([][]byte{s})
 	check := func(name string, pieces [][]byte) bool {
-		got := feed(e, eng, c.Response, pieces)
+		got := run(pieces)
 		o.Steps++
 		if (ref.Err != nil) != (got.Err != nil) {
 			o.Fail("segmentation-changes-verdict", kindOf(c), "fed in one piece the stream is %s, fed as %s it is %s", describe(ref.Err), name, describe(got.Err))
@@ -235,6 +275,9 @@ func kindOf(c *SegCase) string {
 	if len(c.Muts) > 0 {
 		k += "+mutated"
 	}
+	if c.serverPath() {
+		k += "+handler"
+	}
 	return k
 }
 
@@ -270,6 +313,10 @@ func ownershipClass(v string) string {
 	switch {
 	case contains(v, "double Free"):
 		return "double-free"
+	case contains(v, "read after free"):
+		return "read-after-free"
+	case contains(v, "stale reference"):
+		return "stale-read-buffer"
 	case contains(v, "after it was freed"):
 		return "use-after-free"
 	case contains(v, "written after"):
